@@ -1,13 +1,18 @@
 """C02: check configuration (PROP) and MANIFEST texts (META)."""
 PROP = {
-    "lean_modules": ["ConduitModel.Props.C02", "ConduitModel.Facts.C02"],
+    "lean_modules": ["ConduitModel.Props.C02", "ConduitModel.Props.C02Batch", "ConduitModel.Facts.C02"],
     "jobs": [
         {"harness": "h_srcack", "comp": "srcack", "driver": "srcack", "n_quick": 400, "n_thorough": 5000, "timeout": 2400,
          "relevant": lambda case: "fail:" in case["model"] or case["impl"] != "ok",
          "why": "a trace recorded from the real connector.Source + Persister (fault-injecting snapshotting store, fake plugin "
                 "stream) is not accepted by the M3 model whose every run satisfies C02, or the C02 monitor fails on it"},
+        {"harness": "h_srcack", "comp": "srcbatch", "driver": "srcbatch", "n_quick": 400, "n_thorough": 8000, "timeout": 1800,
+         "why": "2-4 real Sources sharing one real Persister batch, per-key Set failures / Commit failures injected round by round: the "
+                "round's outcome (committed or not, stored position of every source, which acks reached which plugin) is not the one "
+                "FlushBatch.flushNow (shape keep: proved commit-only-if-every-store-ok, callbacks-nil-iff-committed) gives, or an ack "
+                "was delivered for a position the store does not hold for that source"},
     ],
-    "rule": "srcack: one real Source on one real Persister per case; seeded op scripts (acks of 1-3 positions, Flush / timer / "
+    "rule": "srcbatch: K=2-4 sources, 2-8 flush rounds, each round acks for a random subset, a Set failure for one or two keys (4/10), a Commit failure (1/10) or none, flush and quiesce; non-trivial = a Set failure, a commit and a delivery in the trace; srcack: one real Source on one real Persister per case; seeded op scripts (acks of 1-3 positions, Flush / timer / "
             "bundle-threshold triggers, failures at NewTransaction/Set/Commit, held commits, failing and held Sends, optional "
             "Teardown); a case is non-trivial when the trace has a commit and a delivered ack and at least one fault, crash or "
             "teardown; distinct = distinct case lines",
@@ -15,7 +20,7 @@ PROP = {
                 "engine-side hypothesis ReachO (acks justified and in read order: C01/C04)",
     "assumptions": ["a successful Commit of the database is durable and atomic (store contract)",
                     "atomic-step granularity of M3 (one critical section / store call / stream send per step), validated by trace acceptance",
-                    "single source per persister batch in the model (the flush outcome is shared by all connectors of a batch)"],
+                    "M3 is the per-connector projection of the event system; that the flush outcome is ONE outcome for all connectors of a batch (commit only if every store write succeeded, every callback gets the same error) is decided separately for batches of any size and iteration order by Model/FlushBatch.lean + Props/C02Batch.lean (C02_batch_*) and tied by the regenerated loop shape ""(C02_fact_flushNow_loop_keeps_failure) and the srcbatch correspondence (K real Sources on one real Persister)"],
 }
 
 META = {
